@@ -91,8 +91,84 @@ fn apply<const B: usize, const L: usize>(op: &str, a: Uint<B, L>, b: Uint<B, L>,
         "wto" | "sto" | "cto" => conv(op, a, m, k),
         "cnmo" => match a.checked_next_multiple_of(b) { Some(x) => (x, true), None => (m, false) },
         "powmod" => (a.pow_mod(U::<B, L>::wrapping_from(k as u64), m), false),
+        // ---- second family (UintMachine.tla: Ops2)
+        "cadd" => match a.checked_add(b) { Some(x) => (x, true), None => (m, false) },
+        "csub" => match a.checked_sub(b) { Some(x) => (x, true), None => (m, false) },
+        "cmul" => match a.checked_mul(b) { Some(x) => (x, true), None => (m, false) },
+        "cdiv" => match a.checked_div(b) { Some(x) => (x, true), None => (m, false) },
+        "crem" => match a.checked_rem(b) { Some(x) => (x, true), None => (m, false) },
+        "invmod" => match a.inv_mod(b) { Some(x) => (x, true), None => (m, false) },
+        "clog" => match a.checked_log(b) { Some(x) => (num::<B, L>(x), true), None => (m, false) },
+        "sum3" => ([a, b, m].iter().sum::<U<B, L>>(), false),
+        "prod3" => ([a, b, m].into_iter().product::<U<B, L>>(), false),
+        "redc" => {
+            let pre = B > 0 && (m.as_limbs()[0] & 1) == 1 && m.as_limbs().iter().enumerate().any(|(i, l)| (i == 0 && *l >= 3) || (i > 0 && *l != 0)) && a < m && b < m;
+            if pre {
+                // inv = -m^-1 mod 2^64 by Newton iteration on the low limb (harness arithmetic, not the library's)
+                let m0 = m.as_limbs()[0];
+                let mut x = 1u64;
+                for _ in 0..6 {
+                    x = x.wrapping_mul(2u64.wrapping_sub(m0.wrapping_mul(x)));
+                }
+                let inv = x.wrapping_neg();
+                if shape == 0 && a == b { (a.square_redc(m, inv), true) } else { (a.mul_redc(b, m, inv), true) }
+            } else {
+                (m, false)
+            }
+        }
+        "lo" => (num::<B, L>(a.leading_ones()), false),
+        "to" => (num::<B, L>(a.trailing_ones()), false),
+        "cz" => (num::<B, L>(a.count_zeros()), false),
+        "bytelen" => (num::<B, L>(a.byte_len()), false),
+        "msb" => { let (v, e) = a.most_significant_bits(); (U::<B, L>::wrapping_from(v), e > 0) }
+        "clog2" => match a.checked_log2() { Some(x) => (num::<B, L>(x), true), None => (m, false) },
+        "clog10" => match a.checked_log10() { Some(x) => (num::<B, L>(x), true), None => (m, false) },
+        "cneg" => match a.checked_neg() { Some(x) => (x, true), None => (m, false) },
+        "zeroize" => { let mut x = a; zeroize::Zeroize::zeroize(&mut x); (x, false) }
+        "setone" => { let mut x = a; num_traits::One::set_one(&mut x); (x, false) }
+        "rt_oct" => (format!("{a:#o}").parse::<U<B, L>>().unwrap(), false),
+        "rt_bin" => (format!("{a:#b}").parse::<U<B, L>>().unwrap(), false),
+        "rt_b36" => (U::<B, L>::from_base_be(36, a.to_base_be(36)).unwrap(), false),
+        "rt_bits" => (ruint::Bits::<B, L>::from(a).into_inner(), false),
+        "rt_big" => (U::<B, L>::try_from(num_bigint::BigUint::from(a)).unwrap(), false),
+        "rt_ssz" => (<U<B, L> as ssz::Decode>::from_ssz_bytes(&ssz::Encode::as_ssz_bytes(&a)).unwrap(), false),
+        "rt_rlp" => {
+            let mut v = Vec::new();
+            alloy_rlp::Encodable::encode(&a, &mut v);
+            let mut sl = &v[..];
+            let x = <U<B, L> as alloy_rlp::Decodable>::decode(&mut sl).unwrap();
+            assert!(sl.is_empty());
+            (x, false)
+        }
+        "rt_borsh" => (borsh::from_slice::<U<B, L>>(&borsh::to_vec(&a).unwrap()).unwrap(), false),
+        "rt_der" => { use der::{Decode, Encode}; (U::<B, L>::from_der(&a.to_der().unwrap()).unwrap(), false) }
+        "rt_scale" => { use parity_scale_codec::{Decode, Encode}; let v = a.encode(); (U::<B, L>::decode(&mut &v[..]).unwrap(), false) }
+        "rt_compact" => {
+            use parity_scale_codec::{Decode, Encode};
+            use ruint::support::scale::{CompactRefUint, CompactUint};
+            let v = CompactRefUint(&a).encode();
+            (CompactUint::<B, L>::decode(&mut &v[..]).unwrap().0, false)
+        }
+        "rt_json" => (serde_json::from_slice::<U<B, L>>(&serde_json::to_vec(&a).unwrap()).unwrap(), false),
+        "rt_bincode" => (bincode::deserialize::<U<B, L>>(&bincode::serialize(&a).unwrap()).unwrap(), false),
+        "cshl" => match a.checked_shl(k) { Some(x) => (x, true), None => (m, false) },
+        "cshr" => match a.checked_shr(k) { Some(x) => (x, true), None => (m, false) },
+        "sshl" => (a.saturating_shl(k), false),
+        "wshl" => (a.wrapping_shl(k), false),
+        "wshr" => (a.wrapping_shr(k), false),
+        "cbyte" => match a.checked_byte(k) { Some(x) => (num::<B, L>(x as usize), true), None => (m, false) },
+        "cpow" => match a.checked_pow(U::<B, L>::wrapping_from(k as u64)) { Some(x) => (x, true), None => (m, false) },
+        "spow" => (a.saturating_pow(U::<B, L>::wrapping_from(k as u64)), false),
+        "wpow" => (a.wrapping_pow(U::<B, L>::wrapping_from(k as u64)), false),
+        "rt_base" => (U::<B, L>::from_base_le(k as u64, a.to_base_le(k as u64)).unwrap(), false),
+        "ctsel" => (<U<B, L> as subtle::ConditionallySelectable>::conditional_select(&a, &b, subtle::Choice::from(k as u8)), false),
         other => panic!("mach: unknown op {other:?}"),
     }
+}
+
+/// `U::wrapping_from(x as u64)`: how the machine writes a native count into a register.
+fn num<const B: usize, const L: usize>(x: usize) -> Uint<B, L> {
+    Uint::<B, L>::wrapping_from(x as u64)
 }
 
 /// Uint<B> -> Uint<K> -> Uint<B> with the three conversion disciplines; flag = the first leg was lossless.
@@ -182,6 +258,10 @@ fn run_w<const B: usize, const L: usize>(scn: &Obj) -> Value {
                 if matches!(op, "div" | "rem" | "divceil") && regs[s2].is_zero() {
                     continue;
                 }
+                // the specification computes these by Euclid's algorithm over BigNats (seconds per step above two limbs): drawn less often there
+                if B > 130 && matches!(op, "invmod" | "redc" | "gcd" | "lcm") && rng.next() % 4 != 0 {
+                    continue;
+                }
                 let k = pick_imm(op, B, &mut rng);
                 let (a, b, m) = (regs[s1], regs[s2], regs[d]);
                 let r = std::panic::catch_unwind(std::panic::AssertUnwindSafe(|| apply(op, a, b, m, k)));
@@ -211,6 +291,10 @@ const DRIVE_OPS: &[&str] = &[
     "div", "rem", "divceil", "wneg", "not", "revbits", "lz", "tz", "popcount", "bitlen", "invring", "npow2", "rt_dec", "rt_hex", "rt_be",
     "rt_le", "rt_limbs", "via_u64", "shl", "shr", "ashr", "rotl", "rotr", "oshl", "oshr", "pow", "root", "setbit1", "setbit0", "load",
     "reduce", "addmod", "mulmod", "wto", "sto", "cto", "cnmo", "powmod",
+    // second family
+    "cadd", "csub", "cmul", "cdiv", "crem", "invmod", "clog", "sum3", "prod3", "redc", "lo", "to", "cz", "bytelen", "msb", "clog2", "clog10",
+    "cneg", "zeroize", "setone", "rt_oct", "rt_bin", "rt_b36", "rt_bits", "rt_big", "rt_ssz", "rt_rlp", "rt_borsh", "rt_der", "rt_scale",
+    "rt_compact", "rt_json", "rt_bincode", "cshl", "cshr", "sshl", "wshl", "wshr", "cbyte", "cpow", "spow", "wpow", "rt_base", "ctsel",
     // the masking-sensitive ones once more, so that they make up about a third of every history
     "ashr", "not", "wneg", "rotl", "rotr", "revbits", "shl", "oshl", "wmul", "wsub", "xor", "load", "load", "wto", "sto",
 ];
@@ -273,7 +357,11 @@ fn seed_value<const B: usize, const L: usize>(rng: &mut XorShift) -> Uint<B, L> 
 fn pick_imm(op: &str, bits: usize, rng: &mut XorShift) -> usize {
     let r = rng.next();
     match op {
-        "shl" | "shr" | "ashr" | "rotl" | "rotr" | "oshl" | "oshr" | "setbit1" | "setbit0" => {
+        "cbyte" => [0, 1, 7, 8, bits / 8, (bits + 7) / 8, (bits + 7) / 8 + 1, bits / 16, 1000][(r % 9) as usize].min(usize::MAX),
+        "cpow" | "spow" | "wpow" => (r % 7) as usize,
+        "rt_base" => [2usize, 3, 10, 16, 36, 255, 256, 65536, 0x7fff_ffff, 7, 1000, 0x7fff_fffe][(r % 12) as usize],
+        "ctsel" => (r % 2) as usize,
+        "shl" | "shr" | "ashr" | "rotl" | "rotr" | "oshl" | "oshr" | "setbit1" | "setbit0" | "cshl" | "cshr" | "sshl" | "wshl" | "wshr" => {
             let c = [0, 1, 7, 63, 64, 65, bits / 2, bits.saturating_sub(1), bits, bits + 1, bits + 64, (bits % 64) + 1, 64 * ((bits + 63) / 64)];
             if r % 3 == 0 { (r >> 8) as usize % (2 * bits + 70) } else { c[(r >> 8) as usize % c.len()] }
         }
